@@ -808,6 +808,21 @@ def _bign96_sign(det):
     return build
 
 
+def _bad_privkey(base, name):
+    """the ERR_BAD_PRIVKEY exit of a signer: private key in [q, q + 2^62) -- the working state already holds the caller's key"""
+    def build(lib, rng, size):
+        c = base(lib, rng, size)
+        c.name, c.exit_class, c.expect_ok = name + ":bad-privkey", "bad-privkey", False
+        for v in c.v:
+            n = len(v.needles[0])
+            _, q = _params_any(lib, 96 if n == 24 else 4 * n)
+            d = (q + rng.getrandbits(62)).to_bytes(n, "little")
+            v.args[5] = lib.mk(d)
+            v.needles = [d]
+        return c
+    return build
+
+
 def _bign96_keygen(lib, rng, size):
     c = Call("bign96KeypairGen", lib.bign96KeypairGen)
     for v in c.v:
@@ -1357,6 +1372,8 @@ _ROUND2_HEAVY = {
     "bignKeypairVal": _keypair_val(False), "bignKeypairVal:bad": _keypair_val(False, True),
     "bignIdExtract": _bign_id_extract, "bignIdSign": _bign_id_sign(False), "bignIdSign2": _bign_id_sign(True),
     "bpkiShareWrap": _bpki_share(False), "bpkiShareUnwrap": _bpki_share(True), "bpkiShareUnwrap:bad": _bpki_share(True, True),
+    "bignSign:badpriv": _bad_privkey(_bign_sign(False), "bignSign"), "bignSign2:badpriv": _bad_privkey(_bign_sign(True), "bignSign2"),
+    "bign96Sign:badpriv": _bad_privkey(_bign96_sign(False), "bign96Sign"), "bign96Sign2:badpriv": _bad_privkey(_bign96_sign(True), "bign96Sign2"),
     "bpkiShareUnwrap:other": _bpki_wrongtype(True), "bpkiPrivkeyUnwrap:other": _bpki_wrongtype(False),
     "bpkiCSRRewrap": _bpki_csr_rewrap,
     "btokCVCWrap": _btok_cvc_wrap, "btokCVCIss": _btok_cvc_iss,
